@@ -58,6 +58,19 @@ Section Book.
     reflexivity.
   Qed.
 
+  (** complement: no malformed line before a line of 65536 bytes or more: "token too long" instead
+      (malformed lines AFTER such a line are never seen: they are not in [events]) *)
+  Theorem resolved_db_too_long : forall (w : world) (op : options) data,
+    errors_of (events NM data) = [] -> ~ readable data ->
+    resolved_db NM w op (OData data NoFault) = inl (EScan true).
+  Proof.
+    intros w op data Hc Hr. unfold resolved_db, load_db. rewrite parse_opened_data.
+    rewrite (stop_at_errors_too_long NM _
+               (fun d n => db_push NM d (header n) (elems n))
+               (fun _ _ => eq_refl) data [] Hc Hr).
+    reflexivity.
+  Qed.
+
   (** * the commands *)
   Lemma open_all_two : forall w p q o1 o2,
     open_file w p = Some o1 -> open_file w q = Some o2 -> open_all w [p; q] = Some [o1; o2].
